@@ -437,46 +437,17 @@ def run(cx):
             b = cx.body(path)
             a = cx.adt(enum)
             discr = {v["name"]: v["discr"] for v in a["variants"]}
-            sw = [i for i, bl in enumerate(b.blocks) if bl["t"]["k"] == "switch" and not bl.get("cleanup") and not in_ignored_expansion(b, i)]
-            ob.floor(sw, 1, f"switch in {path}", exact=True)
-            t = b.blocks[sw[0]]["t"]
-            o = Origins(b)
-            ob.require(is_param(o.of_operand(t["discr"])), f"{path}/subject", f"{path} switches on {show(o.of_operand(t['discr']))}", b.path)
-            table = {}
-            for val, tgt in t["arms"]:
-                # the variant produced on this arm: first aggregate of the enum reachable before return
-                seen = b.reachable_from(tgt)
-                vs = set()
-                for bb in seen:
-                    for s in b.blocks[bb]["s"]:
-                        if s["k"] == "assign" and s["rv"]["k"] == "agg" and s["rv"].get("adt") == enum:
-                            vs.add(s["rv"]["variant"])
-                # restrict to blocks not shared with other arms
-                own = set(seen)
-                for v2, t2 in t["arms"]:
-                    if t2 != tgt:
-                        own -= b.reachable_from(t2, avoid=[])
-                vs_own = set()
-                for bb in own | {tgt}:
-                    for s in b.blocks[bb]["s"]:
-                        if s["k"] == "assign" and s["rv"]["k"] == "agg" and s["rv"].get("adt") == enum:
-                            vs_own.add(s["rv"]["variant"])
-                # follow falseedge from the arm head
-                table[val] = vs_own
+            # the conversion as a table over every discriminant, every other constant it mentions and one fresh code - whether it
+            # is a match on the integer, a guard chain, or `if code != K { return Err }`
+            table, fresh = int_enum_table(prog, b, enum, discr)
             ob.count(len(table))
-            for val, vs in sorted(table.items()):
-                ob.require(len(vs) == 1 and discr.get(next(iter(vs))) == val, f"{path}/row/{val}",
-                           f"{path}: code {val} ↦ {sorted(vs)} but discriminants are {discr}", b.path, b.loc())
-            ob.require(set(table) == set(discr.values()), f"{path}/closed", f"{path}: accepts {sorted(table)}, variants are {discr}", b.path, b.loc())
-            # default arm returns Err and constructs no variant
-            other = t["otherwise"]
-            own = b.reachable_from(other)
-            for v2, t2 in t["arms"]:
-                own -= b.reachable_from(t2)
-            errs = [s for bb in own for s in b.blocks[bb]["s"] if s["k"] == "assign" and s["lhs"] == 0 and s["rv"]["k"] == "agg" and s["rv"].get("variant") == "Err"]
-            oks = [s for bb in own for s in b.blocks[bb]["s"] if s["k"] == "assign" and s["rv"]["k"] == "agg" and (s["rv"].get("adt") == enum or s["rv"].get("variant") == "Ok")]
-            ob.require(errs and not oks, f"{path}/default-err", f"{path}: the default arm does not return Err", b.path, b.loc())
-            ob.set_sample({"fn": path, "table": {str(k): sorted(v) for k, v in table.items()}})
+            by_code = {v: k for k, v in discr.items()}
+            for code, outs in sorted(table.items()):
+                if code in by_code:
+                    ob.require(outs == {by_code[code]}, f"{path}/row/{code}", f"{path}: code {code} ↦ {sorted(outs)} but discriminants are {discr}", b.path, b.loc())
+                else:
+                    ob.require(outs == {"Err"}, f"{path}/default-err", f"{path}: code {code if code != fresh else 'any other'} ↦ {sorted(outs)}: the table is not closed (must be Err)", b.path, b.loc())
+            ob.set_sample({"fn": path, "table": {str(k if k != fresh else "other"): sorted(v) for k, v in table.items()}})
 
     with cx.ob("C07.6", "R-CALLERS", "closed world of the codec path: the four message codecs and the header conversions call nothing that could transform route/headers/body") as ob:
         allowed = (
